@@ -101,6 +101,9 @@ func traverseAll(r *Run, pj *simdjson.ParsedJson, what string) bool {
 	if !check("MarshalJSON", err) {
 		return false
 	}
+	if !check("lookup-walk", WalkFindBlind(pj)) {
+		return false
+	}
 	err = safely(func() error {
 		it := pj.Iter()
 		var el simdjson.Element
